@@ -102,6 +102,10 @@ pub fn literal_texts() -> Vec<String> {
     for f in boundary_floats() {
         v.extend(float_texts(f));
     }
+    // a number can be written without a digit before or after the point, with a sign, with an exponent
+    for t in [".5", "-.5", "+.5", "5.", "-5.", ".15e1", "1.5e0", "+0.5", "-0.", "0.5e0", "5.e-1", ".5E0"] {
+        v.push(t.into());
+    }
     v.push("18446744073709551616".into());
     v.push("-9223372036854775809".into());
     v.push("0x10000000000000000".into());
